@@ -15,7 +15,14 @@ use std::{
 
 use serde::Deserialize;
 use tokio::time::Instant;
-use verif_harness::trace::{write_events, Ev, Recorder};
+use verif_harness::{
+	simchild::{Kid, SimFactory},
+	trace::{write_events, Ev, Recorder},
+};
+use watchexec_supervisor::{
+	command::{Command, Program},
+	job::Job,
+};
 use watchexec::{
 	error::{CriticalError, RuntimeError},
 	filter::Filterer,
@@ -37,6 +44,20 @@ struct Script {
 	/// throttle changes made from outside the handler: (at ms, new throttle ms)
 	#[serde(default)]
 	throttles: Vec<(u64, u64)>,
+	/// child behaviours of the jobs the handler creates, by job index
+	#[serde(default)]
+	jobs: Vec<Vec<Kid>>,
+}
+
+/// An operation the handler performs on a job when it sees the event that carries it.
+#[derive(Clone, Debug, Deserialize)]
+struct JobOp {
+	job: usize,
+	op: String,
+	#[serde(default)]
+	sig: Option<String>,
+	#[serde(default)]
+	grace: u64,
 }
 
 #[derive(Clone, Debug, Deserialize)]
@@ -55,6 +76,8 @@ struct Evt {
 	arg: u64,
 	#[serde(default = "ignore")]
 	onerr: String,
+	#[serde(default)]
+	jobops: Vec<JobOp>,
 }
 
 fn none() -> String {
@@ -162,10 +185,15 @@ async fn run_script(script: Script) -> Vec<Ev> {
 	let wx = Arc::new(Watchexec::with_config(config).expect("watchexec"));
 
 	// the handler: record the batch, apply the scripted actions, hold, return
+	let jobs_made: Arc<Mutex<HashMap<usize, Job>>> = Arc::new(Mutex::new(HashMap::new()));
+	let kept: Arc<Mutex<Vec<Job>>> = Arc::new(Mutex::new(Vec::new()));
+	let job_kids = Arc::new(script.jobs.clone());
 	let handler_body = {
 		let rec = rec.clone();
 		let by_id = by_id.clone();
 		let wxc = wx.clone();
+		let jobs_made = jobs_made.clone();
+		let kept = kept.clone();
 		move |action: &mut watchexec::action::ActionHandler| -> u64 {
 			let ids: Vec<i64> = action.events.iter().map(event_id).collect();
 			let mut ev = Ev::new("handler_in");
@@ -175,13 +203,70 @@ async fn run_script(script: Script) -> Vec<Ev> {
 			for id in &ids {
 				if let Some(e) = by_id.get(id) {
 					hold = hold.max(e.hold);
+					for jo in &e.jobops {
+						let job = {
+							let mut made = jobs_made.lock().unwrap();
+							if let Some(j) = made.get(&jo.job) {
+								j.clone()
+							} else {
+								let (_, j) = action.create_job(Arc::new(Command {
+									program: Program::Exec { prog: "/bin/true".into(), args: Vec::new() },
+									options: Default::default(),
+								}));
+								let mut factory = SimFactory::new(
+									rec.clone(),
+									job_kids.get(jo.job).cloned().unwrap_or_default(),
+								);
+								factory.next = Arc::new(std::sync::atomic::AtomicI64::new((jo.job as i64) * 100));
+								factory.base = (jo.job as i64) * 100;
+								j.set_spawn_hook(move |cmd, ctx| factory.on_hook(0, cmd, ctx));
+								made.insert(jo.job, j.clone());
+								j
+							}
+						};
+						let sig = match jo.sig.as_deref() {
+							Some("INT") => Signal::Interrupt,
+							Some("HUP") => Signal::Hangup,
+							Some("KILL") => Signal::ForceStop,
+							Some("USR1") => Signal::User1,
+							_ => Signal::Terminate,
+						};
+						let grace = Duration::from_millis(jo.grace);
+						rec.rec(Ev::new("jobop").n(jo.job as i64).a(jo.op.clone()).x(jo.grace as i64));
+						match jo.op.as_str() {
+							"create" => {}
+							"start" => drop(job.start()),
+							"stop" => drop(job.stop()),
+							"restart" => drop(job.restart()),
+							"try_restart" => drop(job.try_restart()),
+							"stop_with_signal" => drop(job.stop_with_signal(sig, grace)),
+							"restart_with_signal" => drop(job.restart_with_signal(sig, grace)),
+							"try_restart_with_signal" => drop(job.try_restart_with_signal(sig, grace)),
+							"signal" => drop(job.signal(sig)),
+							"delete" => drop(job.delete()),
+							"delete_now" => drop(job.delete_now()),
+							"to_wait" => drop(job.to_wait()),
+							"run" => drop(job.run(|_| {})),
+							"keep_clone" => kept.lock().unwrap().push(job.clone()),
+							"forget" => {
+								jobs_made.lock().unwrap().remove(&jo.job);
+							}
+							other => panic!("unknown job op {other}"),
+						}
+					}
 					match e.act.as_str() {
 						"throttle" => {
 							wxc.config.throttle(Duration::from_millis(e.arg));
 							rec.rec(Ev::new("throttle").x(e.arg as i64));
 						}
-						"quit" => action.quit(),
-						"gquit" => action.quit_gracefully(Signal::Terminate, Duration::from_millis(e.arg)),
+						"quit" => {
+							rec.rec(Ev::new("ask_quit").x(0));
+							action.quit();
+						}
+						"gquit" => {
+							rec.rec(Ev::new("ask_quit").x(1).n(e.arg as i64));
+							action.quit_gracefully(Signal::Terminate, Duration::from_millis(e.arg));
+						}
 						_ => {}
 					}
 				}
